@@ -91,6 +91,11 @@ impl World {
 
     /// An unexpected (not injected) panic inside a cache operation.
     pub fn unexpected_panic(&mut self, name: &str, msg: &str) {
+        self.unexpected_panic_ev(name, msg, false);
+    }
+
+    /// `evicting`: the operation had to evict to make room
+    pub fn unexpected_panic_ev(&mut self, name: &str, msg: &str, evicting: bool) {
         let mut tags = if msg.contains("overflow") {
             vec!["C02", "C01"]
         }
@@ -99,6 +104,8 @@ impl World {
         };
         // a documented-total operation that panics also breaks its own contract
         match name {
+            // an insertion that was due to evict (or to be refused) and panics
+            // instead has not evicted "the shortest run ... that makes everything fit"
             "insert" | "try_insert" => tags.push("C10"),
             "mutate" => tags.push("C11"),
             "retain" => tags.push("C15"),
@@ -107,6 +114,10 @@ impl World {
             "iterwalk" => tags.push("C12"),
             "set_max_size" => tags.push("C03"),
             _ => { },
+        }
+        if evicting {
+            // due to evict "the shortest run ... whose removal makes everything fit", it panicked instead
+            tags.push("C03");
         }
         self.fail(tags, format!("panic:{}", name), format!("{} panicked: {}", name, msg));
     }
@@ -309,6 +320,20 @@ impl World {
                         ["C03"], format!("not-minimal:{}", info.name),
                         "{} evicted {:?} although keeping {} (size {}) would have fitted: current {} max {}",
                         info.name, unasked, last, last_size, obs.cur, obs.max);
+                    // the same judged by the true sizes of what is held (they equal the
+                    // recorded ones unless the bookkeeping has gone wrong; entries whose
+                    // recorded size may legitimately differ - after an unwound callback, in
+                    // a clone of values with spare capacity - switch this off)
+                    let exact = self.side().desynced.is_empty() && self.side().shrunk.is_empty() && !self.lenient_sizes;
+                    if exact {
+                        let e0 = self.e0;
+                        let true_cur: u128 = obs.items.iter().map(|i| (e0 + i.kheap + i.vheap) as u128).sum();
+                        let last_true = pre.obs.items.iter().find(|i| i.k == last).map(|i| e0 + i.kheap + i.vheap).unwrap_or(0);
+                        ck!(self, true_cur + (last_true as u128) > obs.max as u128,
+                            ["C03"], format!("not-minimal-true:{}", info.name),
+                            "{} evicted {:?} although keeping {} (entry_size {}) would have fitted: the entries held afterwards measure {} in total, max_size {}",
+                            info.name, unasked, last, last_true, true_cur, obs.max);
+                    }
                     if self.want("C03") {
                         let sub_was_lru = info.subject.is_some() && pre_keys.first().copied() == info.subject;
                         let replaced = info.is_insert && info.subject.map(|s| pre_set.contains(&s)).unwrap_or(false);
@@ -329,6 +354,15 @@ impl World {
                         ck!(self, unasked.is_empty(), ["C03", "C10"], format!("fit-evicted:{}", info.name),
                             "{} of an entry of size {} into free space {} evicted {:?}",
                             info.name, inc, free, unasked);
+                    }
+                    let exact = self.side().desynced.is_empty() && self.side().shrunk.is_empty() && !self.lenient_sizes;
+                    if exact && !unasked.is_empty() {
+                        let e0 = self.e0;
+                        let others: u128 = pre.obs.items.iter().filter(|i| Some(i.k) != info.subject || !(info.is_insert || info.name == "mutate"))
+                            .map(|i| (e0 + i.kheap + i.vheap) as u128).sum();
+                        ck!(self, others + inc as u128 > pre.obs.max as u128, ["C03"], format!("fit-evicted-true:{}", info.name),
+                            "{} of an entry of size {} evicted {:?} although everything would have fitted: the other entries measure {}, max_size {}",
+                            info.name, inc, unasked, others, pre.obs.max);
                     }
                 }
             }
